@@ -88,6 +88,12 @@ func c07Programs() []c07Prog {
 			return min(k, n+1) - 1
 		}},
 		{"V().both().limit(k)", func(k int) []*gripql.GraphStatement { return gripql.V().Both().Limit(uint32(k)).Statements }, func(n, k int) int { return min(k, 2*n) }},
+		// starts that the planner rewrites into a label-index scan (LookupVertsIndex over VertexLabelScan), edge scans and edge hops
+		{"V().hasLabel(L)", func(k int) []*gripql.GraphStatement { return gripql.V().HasLabel("L").Statements }, func(n, k int) int { return n }},
+		{"V().hasLabel(L).limit(k)", func(k int) []*gripql.GraphStatement { return gripql.V().HasLabel("L").Limit(uint32(k)).Statements }, func(n, k int) int { return min(k, n) }},
+		{"V().hasLabel(L).in().limit(k)", func(k int) []*gripql.GraphStatement { return gripql.V().HasLabel("L").In().Limit(uint32(k)).Statements }, func(n, k int) int { return min(k, n) }},
+		{"E().limit(k)", func(k int) []*gripql.GraphStatement { return gripql.E().Limit(uint32(k)).Statements }, func(n, k int) int { return min(k, n) }},
+		{"V().outE().out().limit(k)", func(k int) []*gripql.GraphStatement { return gripql.V().OutE().Out().Limit(uint32(k)).Statements }, func(n, k int) int { return min(k, n) }},
 	}
 }
 
@@ -290,7 +296,7 @@ func C07(tier string, args []string) int {
 		return sweep.RunWorker(w, args)
 	}
 	return runSchedWith("C07", tier, args, w,
-		"12 traversal shapes (scan, fan-out, both/bothE fan-in, aggregation, distinct, limit/range) on star graphs; regime (a): all literal capacities scaled to 2..5, N from 0 to 17 (22), preemption bound 1 with an execution cap per scenario, plus client cancellation after 0/1/3 rows; regime (b): real capacities, N around 100/1000 (5000 thorough), default schedule plus deviations; every execution must close the result stream, return the expected number of rows, leave no goroutine parked; deadlock is 'no enabled goroutine'",
+		"17 traversal shapes (scan, fan-out, both/bothE fan-in, aggregation, distinct, limit/range, label-index starts with and without truncation, edge scans and edge hops under limit) on star graphs; regime (a): all literal capacities scaled to 2..5, N from 0 to 17 (22), preemption bound 1 with an execution cap per scenario, plus client cancellation after 0/1/3 rows; regime (b): real capacities, N around 100/1000 (5000 thorough), default schedule plus deviations; every execution must close the result stream, return the expected number of rows, leave no goroutine parked; deadlock is 'no enabled goroutine'",
 		[]string{
 			"regime (a) is a model variant of the code: the literal capacities 10/50/100/1000/5000 are replaced by 2/2/2/3/5 (order preserving) through the instrumented make(chan) calls; regime (b) runs the capacities as written",
 			"the temporary-storage clause is decided by an unscheduled sweep of distinct() traversals through the unmodified pipeline.Run (Badger temp stores) with a private work directory that must be empty once the result stream has closed, with and without client cancellation",
